@@ -183,7 +183,7 @@ pub fn run_c24(ctx: &Ctx) -> i32 {
         each is parsed by the real leaf / private-batch / public-batch parsers under catch_unwind and compared with a layout model; non-trivial = every judged vector; distinct by (parser, content hash)";
     let rep = Report::new("C24", "exploration", rule);
     rep.assume("trailing padding felts of the private-batch layout are not constrained by the property (the model ignores them)");
-    let total = ctx.tier.pick(60_000usize, 3_000_000);
+    let total = ctx.tier.pick(60_000usize, 12_000_000);
     let chunks = 64usize;
     (0..chunks).into_par_iter().for_each(|c| {
         let mut rng = ctx.sub_rng("c24", c as u64);
@@ -525,7 +525,7 @@ pub fn run_c25(ctx: &Ctx) -> i32 {
             Err(p) => rep.violation("encoding / panic (bytes_to_felts)", &format!("panic: {p}"), json!({"len": len})),
         }
     });
-    let n_small = ctx.tier.pick(40_000usize, 2_000_000);
+    let n_small = ctx.tier.pick(40_000usize, 8_000_000);
     (0..64usize).into_par_iter().for_each(|c| {
         let mut rng = ctx.sub_rng("small", c as u64);
         for it in 0..n_small / 64 {
@@ -775,7 +775,7 @@ pub fn run_c26(ctx: &Ctx) -> i32 {
         qp_poseidon_hash(&limbs)
     };
     // all lengths 0..=4096
-    let max_len = ctx.tier.pick(1024usize, 4096);
+    let max_len = ctx.tier.pick(1024usize, 16384);
     (0..=max_len).into_par_iter().for_each(|len| {
         let mut rng = ctx.sub_rng("len", len as u64);
         for variant in 0..3 {
@@ -847,7 +847,7 @@ pub fn run_c26(ctx: &Ctx) -> i32 {
         }
     }
     // node hashing
-    let quads = ctx.tier.pick(4000usize, 200_000);
+    let quads = ctx.tier.pick(4000usize, 4_000_000);
     (0..64usize).into_par_iter().for_each(|c| {
         let mut rng = ctx.sub_rng("node", c as u64);
         for it in 0..quads / 64 {
@@ -1065,7 +1065,7 @@ pub fn run_c35(ctx: &Ctx) -> i32 {
         judge("deep-nesting", &doc, None, json!({"depth": depth}));
     }
     let mut rng = ctx.rng("trunc");
-    for _ in 0..ctx.tier.pick(200usize, 5000) {
+    for _ in 0..ctx.tier.pick(200usize, 50000) {
         let cut = rng.gen_range(0..base.len());
         judge("truncated", &base[..cut], Some(false), json!({"cut": cut}));
         let mut b = base.clone().into_bytes();
@@ -1076,7 +1076,7 @@ pub fn run_c35(ctx: &Ctx) -> i32 {
         }
     }
     // random documents with random sizes around caps
-    let n_rand = ctx.tier.pick(60usize, 1500);
+    let n_rand = ctx.tier.pick(60usize, 20000);
     (0..n_rand).into_par_iter().for_each(|i| {
         if ctx.over_budget() {
             return;
